@@ -117,3 +117,20 @@ package consensus
 //@   assert @call SetStableBlock#0: block.Height() > oldStable.Height() && IsConfirmEnough(block, sm.dm)
 //@   ensures result0 ==> result2 == nil && IsConfirmEnough(block, sm.dm)
 //@   ensures !IsConfirmEnough(block, sm.dm) ==> !result0
+
+// ---------------------------------------------------------------------------------------------------------------------
+// C04 / C02: the transactions of a received block: none executed on the branch before, none twice in the block, each inside its
+// expiry window at the block's time.
+//@ func (TxGuard).ExistTxs   pure trusted
+//@   opt reads=heap
+
+//@ pred wfTxs(txs types.Transactions) = forall(i, 0, len(txs), txs[i] != nil && txs[i].data.GasPrice != nil && txs[i].data.Amount != nil)
+
+//@ func verifyTxs
+//@   props C04 C02
+//@   requires block != nil && block.Header != nil && wfTxs(block.Txs) && params.MinGasPrice != nil
+//@   ensures result == nil ==> !txGuard.ExistTxs(block.ParentHash(), block.Txs)
+//@   ensures result == nil ==> forall(i, 0, len(block.Txs), forall(j, 0, len(block.Txs), i != j ==> block.Txs[i].Hash() != block.Txs[j].Hash()))
+//@   ensures result == nil ==> forall(i, 0, len(block.Txs), uint64(block.Time()) <= block.Txs[i].data.Expiration && block.Txs[i].data.Expiration - uint64(block.Time()) <= 1800)
+//@   ensures result != nil ==> result == ErrVerifyBlockFailed
+//@   invariant @loop 0: 0 <= $k && $k <= len(block.Txs) && forall(i, 0, $k, uint64(block.Time()) <= block.Txs[i].data.Expiration && block.Txs[i].data.Expiration - uint64(block.Time()) <= 1800)
